@@ -120,6 +120,16 @@ Definition angle_with_sym (self : list E) (other2 : list E) : option (list A) :=
   end.
 End AngleGeneric.
 
+(* ============================== unique(use_symmetry=True), selection step
+   C17Unique.miller_unique with the canonical orbit keys supplied as a list
+   (keys[i] = key of v[i]):   _, idx = np.unique(keys, return_index=True, axis=0)
+                              v = v[idx[::-1]]
+   Proofs/C10Sym.v (miller_unique_select) shows it IS miller_unique when
+   keys = map okey v. *)
+Definition sym_select {E K2 : Type} (cmp2 : K2 -> K2 -> comparison) (d : E) (v : list E) (keys : list K2)
+  : list E :=
+  let '(_, idx2, _) := np_unique cmp2 keys in map (fun i => nth i v d) (rev idx2).
+
 (* ================================================= numerical instances *)
 Section Numeric.
 Context {T : Type} (O : Ops T).
@@ -140,6 +150,14 @@ Definition sym_unique_cols_num (rnd10 : T -> T) (m : nat) (cols : list (list (li
 Definition sym_unique_num (rnd10 : T -> T) (ops : list (rot (T:=T))) (vs : list (list T))
   : list (list T) * list nat * list Z :=
   symmetrise_unique (rowcmp O) (map rnd10) (row_iszero O) (fun r => r) [] zrow row_exact0 ract_row ops vs.
+
+(* canonical key of an orbit GIVEN as the list of its images:
+   data = orbit.round(10); data[np.lexsort(data.T)] flattened *)
+Definition orbit_key_of (rnd10 : T -> T) (orb : list (list T)) : list T :=
+  concat (isort (revrow_leb O) (map (map rnd10) orb)).
+Definition unique_sym_from_orbits (rnd10 : T -> T) (v : list (list T)) (orbits : list (list (list T)))
+  : list (list T) :=
+  sym_select (rowcmp O) [] v (map (orbit_key_of rnd10) orbits).
 
 (* angle between two rows as Miller.angle_with(use_symmetry=True) computes it *)
 Definition rdot (r s : list T) : T := vdot O (row2vec O r) (row2vec O s).
